@@ -15,6 +15,32 @@ from ..core.tree import AnalysisError
 from ..core.astutil import walk_no_nested, call_name, src
 
 MAX_PATHS = 4096
+_INLINE = []      # stack of resolvers: Call node -> FunctionInfo of a helper to splice in, or None
+
+
+class inlining:
+    """with PR.inlining(resolver): statement-level calls `helper(...)` for which resolver(call)
+    returns a FunctionInfo are replaced by the helper's own paths (one level of nesting per
+    helper, recursion refused), so extracting statements into a helper does not hide events."""
+
+    def __init__(self, resolver):
+        self.resolver = resolver
+
+    def __enter__(self):
+        _INLINE.append((self.resolver, []))
+
+    def __exit__(self, *a):
+        _INLINE.pop()
+
+
+def _inline_target(st):
+    if not _INLINE or not isinstance(st, (ast.Expr, ast.Assign, ast.Return)) or not isinstance(st.value, ast.Call):
+        return None
+    resolver, active = _INLINE[-1]
+    f = resolver(st.value)
+    if f is None or f.key in active or len(active) > 3:
+        return None
+    return f
 
 
 def events_of_expr(expr, classify):
@@ -77,6 +103,24 @@ def _test_paths(test, classify):
 
 
 def paths_of_stmt(st, classify):
+    f = _inline_target(st)
+    if f is not None and classify(st) is None and classify(st.value) is None:
+        active = _INLINE[-1][1]
+        active.append(f.key)
+        try:
+            sub = paths_of_block(f.node.body, classify)
+        finally:
+            active.pop()
+        args = tuple(events_of_expr(ast.Tuple(elts=list(st.value.args), ctx=ast.Load()), classify))
+        out = []
+        for ev, end in sub:
+            ev = args + tuple(e for e in ev if not (isinstance(e, tuple) and e and e[0] == "return"))
+            if end == "return":
+                end = "return" if isinstance(st, ast.Return) else "fallthrough"
+            if isinstance(st, ast.Return) and end == "fallthrough":
+                end = "return"
+            out.append((ev, end))
+        return out
     if isinstance(st, ast.If):
         tp, fp = _test_paths(st.test, classify)
         out = []
@@ -171,3 +215,138 @@ def call_classifier(mapping):
                         return lab
         return None
     return classify
+
+
+# ---------------------------------------------------------------------------
+# Feasible paths with test outcomes and boolean locals
+# ---------------------------------------------------------------------------
+def feasible_paths(fn, classify, normalise=None, flags=(), resolve_ast=None):
+    """Paths of `fn` as lists of items
+         ('test', text, outcome) | ('ev', label, node) | ('end', kind, node)
+    where statements that contain no event, no exit and no assignment to a tracked
+    boolean local are skipped as a whole (they cannot change the verdict of a must-pass /
+    dominance rule), loops run zero or one time, and a path is kept only when it is
+    feasible with respect to (a) boolean locals assigned constants and later tested and
+    (b) repeated tests of the same side-effect-free expression.
+    classify(node) -> label or None, asked for every expression node;
+    normalise(test expr) -> text (default: source text)."""
+    norm = normalise or src
+    bool_locals = set(flags)
+    for n in walk_no_nested(fn.node):
+        if isinstance(n, ast.Assign) and len(n.targets) == 1 and isinstance(n.targets[0], ast.Name) \
+                and isinstance(n.value, ast.Constant) and isinstance(n.value.value, bool):
+            bool_locals.add(n.targets[0].id)
+
+    def relevant(st):
+        for n in ast.walk(st):
+            if isinstance(n, (ast.Return, ast.Raise, ast.Break, ast.Continue)):
+                return True
+            if isinstance(n, ast.Assign) and any(isinstance(t, ast.Name) and t.id in bool_locals for t in n.targets):
+                return True
+            if isinstance(n, ast.expr) and classify(n) is not None:
+                return True
+        return False
+
+    def leaf(test):
+        if isinstance(test, ast.BoolOp):
+            is_and = isinstance(test.op, ast.And)
+            cont, done = [[]], []
+            for v in test.values:
+                t, f = leaf(v)
+                nc = []
+                for pre in cont:
+                    for x in (f if is_and else t):
+                        done.append(pre + x)
+                    for x in (t if is_and else f):
+                        nc.append(pre + x)
+                cont = nc
+            return (cont, done) if is_and else (done, cont)
+        if isinstance(test, ast.UnaryOp) and isinstance(test.op, ast.Not):
+            t, f = leaf(test.operand)
+            return f, t
+        evs = [("ev", classify(n), n) for n in walk_no_nested(test) if classify(n) is not None]
+        txt = norm(test)
+        return [evs + [("test", txt, True)]], [evs + [("test", txt, False)]]
+
+    def expr_events(e):
+        return [("ev", classify(n), n) for n in walk_no_nested(e) if classify(n) is not None] if e is not None else []
+
+    def block(body):
+        paths = [([], None)]
+        for st in body:
+            if not relevant(st):
+                continue
+            new = []
+            for items, end in paths:
+                if end is not None:
+                    new.append((items, end))
+                    continue
+                for its, e2 in stmt(st):
+                    new.append((items + its, e2))
+            if len(new) > MAX_PATHS:
+                raise AnalysisError("pathrules: too many paths")
+            paths = new
+        return paths
+
+    def stmt(st):
+        if isinstance(st, ast.If):
+            t, f = leaf(resolve_ast(st.test) if resolve_ast else st.test)
+            out = []
+            for pre in t:
+                out += [(pre + its, e) for its, e in block(st.body)]
+            for pre in f:
+                out += [(pre + its, e) for its, e in block(st.orelse)]
+            return out
+        if isinstance(st, ast.Return):
+            return [(expr_events(st.value) + [("end", "return", st)], "return")]
+        if isinstance(st, ast.Raise):
+            return [([("end", "raise", st)], "raise")]
+        if isinstance(st, (ast.Break, ast.Continue)):
+            return [([], "loop-exit")]   # leaves the (0/1-iteration) loop body: execution continues after the loop
+        if isinstance(st, (ast.For, ast.While)):
+            out = [([], None)]
+            for its, e in block(st.body):
+                out.append((its + [("iter-end", e or "fallthrough")], e if e in ("return", "raise") else None))
+            return out
+        if isinstance(st, ast.With):
+            return block(st.body)
+        if isinstance(st, ast.Try):
+            out = list(block(st.body + st.orelse))
+            for h in st.handlers:
+                out += block(h.body)
+            return out
+        if isinstance(st, ast.Assign) and len(st.targets) == 1 and isinstance(st.targets[0], ast.Name) \
+                and st.targets[0].id in bool_locals:
+            if isinstance(st.value, ast.Constant) and isinstance(st.value.value, bool):
+                return [([("set", st.targets[0].id, st.value.value)], None)]
+            return [(expr_events(st.value) + [("kill", st.targets[0].id)], None)]
+        if isinstance(st, (ast.Assign, ast.AugAssign, ast.AnnAssign, ast.Expr)):
+            tgt = st.targets[0] if isinstance(st, ast.Assign) else getattr(st, "target", None)
+            kill = [("kill", src(tgt))] if tgt is not None else []
+            return [(expr_events(st.value) + kill, None)]
+        return [([], None)]
+
+    import re as _re
+    out = []
+    for items, end in block(fn.node.body):
+        vals, known, ok = {}, {}, True
+        for it in items:
+            if it[0] == "set":
+                vals[it[1]] = it[2]
+            elif it[0] == "kill":
+                vals.pop(it[1], None)
+                for k in list(known):
+                    if _re.search(r"(?<![\w.])" + _re.escape(it[1]) + r"(?![\w])", k):
+                        del known[k]
+            elif it[0] == "test":
+                if it[1] in vals and vals[it[1]] != it[2]:
+                    ok = False
+                    break
+                if it[1] in known and known[it[1]] != it[2]:
+                    ok = False
+                    break
+                known[it[1]] = it[2]
+        if ok:
+            out.append([it for it in items if it[0] in ("test", "ev", "end", "iter-end")] +
+                       ([] if end else [("end", "fallthrough", None)]))
+    return out
